@@ -72,8 +72,8 @@ package funnel
 //verif:ensures[inv] mInv(m)
 //verif:ensures[forward] m.released >= old(m.released)
 //verif:ensures[maximal] err == nil ==> m.released == len(m.positions) || !m.terminal[m.released]
-//verif:call-preserves ackNacker.Ack : all(m), m.terminal[*], m.ackVotes[*], m.positions[*], m.nackTaskID[*], m.nackErr[*] because "the parent of a multiAckNacker is the acker it was created with (Worker, runAckNacker or an outer multiAckNacker); the ackNacker graph is a tree, so no parent holds a reference to m or to the slices m owns"
-//verif:call-preserves ackNacker.Nack : all(m), m.terminal[*], m.ackVotes[*], m.positions[*], m.nackTaskID[*], m.nackErr[*] because "see ackNacker.Ack"
+//verif:call-preserves ackNacker.Ack : all(m), m.terminal[*], m.acked[*], m.ackVotes[*], m.positions[*], m.nackTaskID[*], m.nackErr[*] because "the parent of a multiAckNacker is the acker it was created with (Worker, runAckNacker or an outer multiAckNacker); the ackNacker graph is a tree, so no parent holds a reference to m or to the slices m owns"
+//verif:call-preserves ackNacker.Nack : all(m), m.terminal[*], m.acked[*], m.ackVotes[*], m.positions[*], m.nackTaskID[*], m.nackErr[*] because "see ackNacker.Ack"
 //verif:call[ack-unanimous] ackNacker.Ack requires len(arg1.positions) > 0 && arg1.positions == m.positions[m.released : m.released + len(arg1.positions)] && m.released + len(arg1.positions) <= len(m.positions) && forall k in [0, len(arg1.positions)): m.terminal[m.released + k] && m.acked[m.released + k] && m.ackVotes[m.released + k] == m.branches
 //verif:call[nack-at-cursor] ackNacker.Nack requires len(arg1.positions) == 1 && arg1.positions[0] == m.positions[m.released] && m.terminal[m.released] && !m.acked[m.released]
 //verif:loop 0 invariant mInv(m) && m.released >= old(m.released)
